@@ -85,3 +85,23 @@ func sliceFor(pc []*smt.Term, ts ...*smt.Term) []*smt.Term {
 	}
 	return out
 }
+
+var arithCache sync.Map // term id -> bool
+
+// termHasArith: does the term contain Int/Real-sorted subterms (mixed arithmetic)?
+func termHasArith(t *smt.Term) bool {
+	if v, ok := arithCache.Load(t.ID()); ok {
+		return v.(bool)
+	}
+	res := t.Sort.K == smt.KReal || t.Sort.K == smt.KInt
+	if !res {
+		for _, a := range t.Args {
+			if termHasArith(a) {
+				res = true
+				break
+			}
+		}
+	}
+	arithCache.Store(t.ID(), res)
+	return res
+}
